@@ -82,6 +82,13 @@ pat(r"state->c\.(" + NAME + r")\[0\] = 0;", lambda m: [Ev("WRITE", m.group(1), "
 pat(r"if \(state->c\.(" + NAME + r")\) state->c\.(" + NAME + r")\[0\] = 0;",
     lambda m: [Ev("WRITE_IF_NONNULL", m.group(2), "0", "0") if m.group(1) == m.group(2) else Ev("OTHER")])
 pat(r"memcpy\(state->c\.(" + NAME + r"), \"(.*)\", (.*)\);", lambda m: [Ev("MEMCPY", m.group(1), m.group(2), m.group(3))])
+# append in two statements (F-103): the value is stored at the current length, the length is counted afterwards - events_of() merges the pair into the same
+# WRITE(.., "counter++", ..) event the one-expression form produced and marks it c="split" (C11.s requires the split: the value may read that counter)
+pat(r"state->c\.(" + NAME + r")\[state->(" + NAME + r")_counter\] = (.*);",
+    lambda m: [Ev("WRITE", m.group(1), "counter@", m.group(3)), Ev("COUNTER_OF", m.group(2))])
+pat(r"\(\(uint8_t \*\)(&?)state->c\.(" + NAME + r")\)\[state->(" + NAME + r")_counter\] = (.*);",
+    lambda m: [Ev("WRITE", m.group(2), "counter@", m.group(4)), Ev("COUNTER_OF", m.group(3)), Ev("RAWVIEW", m.group(2), m.group(1))])
+pat(r"state->(" + NAME + r")_counter\+\+;", lambda m: [Ev("COUNTER_INC", m.group(1))])
 pat(r"state->(" + NAME + r")_counter = (.*);", lambda m: [Ev("SETCOUNTER", m.group(1), m.group(2))])
 pat(r"state->c\.(" + NAME + r") = (.*);", lambda m: [Ev("SETOUT", m.group(1), m.group(2))])
 # --- hooks -------------------------------------------------------------------------------------
@@ -133,6 +140,33 @@ def events_of(items, strict=True):
             out.append(Ev("CALLBLOCK", it.call.callee, tuple(it.call.args_src), text=it.text()))
         elif isinstance(it, LoopBlock):
             out.append(Ev("LOOP", it.iter_src, it, text=it.text()))
+    return _merge_split_appends(out)
+
+
+def _merge_split_appends(evs):
+    """[WRITE(n, "counter@", v), COUNTER_OF(k), (RAWVIEW)?, COUNTER_INC(k)] -> [WRITE(n, "counter++", v, c="split"), COUNTER_OF(k), (RAWVIEW)?]: store at the
+    current length, then count - the same effect as `buf[counter++] = v`. A store at the counter that is NOT followed by its increment stays "counter@" (and is
+    then nobody's append: rules looking for the append do not find one)."""
+    out = []
+    i = 0
+    while i < len(evs):
+        e = evs[i]
+        if e.kind == "WRITE" and e.b == "counter@":
+            j = i + 1
+            tail = []
+            while j < len(evs) and evs[j].kind in ("COUNTER_OF", "RAWVIEW"):
+                tail.append(evs[j])
+                j += 1
+            cof = next((t.a for t in tail if t.kind == "COUNTER_OF"), None)
+            if j < len(evs) and evs[j].kind == "COUNTER_INC" and evs[j].a == cof:
+                # the value stays in .c as before; the split mark travels in a sibling event
+                out.append(Ev("WRITE", e.a, "counter++", e.c, text=e.text))
+                out.extend(tail)
+                out.append(Ev("APPEND_SPLIT", e.a, text=evs[j].text))
+                i = j + 1
+                continue
+        out.append(e)
+        i += 1
     return out
 
 
